@@ -764,3 +764,78 @@ pub fn cloud_layout(s: &mut Src, c: &Cloud) -> CloudLayout {
     }
     cl
 }
+
+// ------------------------------------------------- documented prototype rules
+
+/// Why a prototype breaks the writer's documented rules (None = follows them).
+/// `registered`: extension prefixes registered with the writer.
+pub fn rule_violation(p: &[Rec], registered: &[String]) -> Option<String> {
+    let has = |n: &str| p.iter().any(|r| r.prefix.is_none() && r.name == n);
+    let get = |n: &str| p.iter().find(|r| r.prefix.is_none() && r.name == n);
+    let count = |ns: [&str; 3]| ns.iter().filter(|n| has(n)).count();
+    let c = count(["cartesianX", "cartesianY", "cartesianZ"]);
+    if c != 0 && c != 3 {
+        return Some("incomplete Cartesian triple".into());
+    }
+    let s = count(["sphericalRange", "sphericalAzimuth", "sphericalElevation"]);
+    if s != 0 && s != 3 {
+        return Some("incomplete spherical triple".into());
+    }
+    if c == 0 && s == 0 {
+        return Some("no coordinates".into());
+    }
+    let k = count(["colorRed", "colorGreen", "colorBlue"]);
+    if k != 0 && k != 3 {
+        return Some("incomplete colour triple".into());
+    }
+    for (state, subject, max) in [
+        ("cartesianInvalidState", "cartesianX", 2),
+        ("sphericalInvalidState", "sphericalAzimuth", 2),
+        ("isColorInvalid", "colorRed", 1),
+        ("isIntensityInvalid", "intensity", 1),
+        ("isTimeStampInvalid", "timeStamp", 1),
+    ] {
+        if let Some(r) = get(state) {
+            if !has(subject) {
+                return Some(format!("{state} without its subject"));
+            }
+            if r.ty != (RType::Int { min: 0, max }) {
+                return Some(format!("{state} is not an integer 0..{max}"));
+            }
+        }
+    }
+    for n in ["sphericalAzimuth", "sphericalElevation"] {
+        if let Some(r) = get(n) {
+            if r.ty.is_integer() {
+                return Some(format!("{n} has an integer type"));
+            }
+        }
+    }
+    for n in ["rowIndex", "columnIndex", "returnCount", "returnIndex"] {
+        if let Some(r) = get(n) {
+            if !r.ty.is_integer() {
+                return Some(format!("{n} is not an integer"));
+            }
+        }
+    }
+    if has("returnCount") != has("returnIndex") {
+        return Some("returnCount and returnIndex must come together".into());
+    }
+    for r in p {
+        if let Some(prefix) = &r.prefix {
+            let ok_name = |n: &str| !n.is_empty() && !n.to_lowercase().starts_with("xml") && n.chars().all(|c| c.is_ascii_alphanumeric() || c == '_' || c == '-');
+            if !ok_name(prefix) || !ok_name(&r.name) {
+                return Some("malformed extension name".into());
+            }
+            if !registered.contains(prefix) {
+                return Some("unregistered extension namespace".into());
+            }
+        }
+        if let Some((min, max)) = r.ty.int_range() {
+            if min > max {
+                return Some("integer minimum above maximum".into());
+            }
+        }
+    }
+    None
+}
